@@ -144,6 +144,13 @@ SmallNeverLost == \A c \in lost : NMut(c) >= 4
 LostOnlyIfConcentrated == Final /\ truncal # NoCluster => \A c \in lost : \E S \in Draws(c) : Distinct(c, S) > NChrom(c)
 TruncalIsCandidate == truncal # NoCluster => truncal \in Potentials
 TruncalSetNonEmpty == phase = "truncal" => TruncalSet # {}
+\* --- run(): what is handed to the chain (run_phyclone_chain's outlier_prob, which switches outlier proposals and the
+\* outlier option of the data-point move on) is the value AFTER the defaulting of Options.  Deviation `raw`: the
+\* defaulting is done inside the loader only and the chain receives the option as given.
+ChainOn(raw) == IF raw THEN O.globpos ELSE ModellingOn
+\* whenever a data point carries an outlier prior the samplers can propose outliers (else the update is not the posterior's)
+PriorsImplyProposals == Final => ((\E c \in Clusters : p[c] # "zero") => ChainOn(FALSE))
+PriorsImplyProposalsRaw == Final => ((\E c \in Clusters : p[c] # "zero") => ChainOn(TRUE))   \* refuted on purpose
 \* --- recorded observation, not a listed property: with --assign-loss-prob AND a column in the file, zero entries stay zero
 \* although outlier modelling is on (compute_outlier_prob then returns the pair 0, 0).  Refuted on purpose (vacuity run).
 PositiveWheneverOn == Final /\ ModellingOn => \A c \in Clusters : p[c] # "zero"
